@@ -86,12 +86,14 @@ abbrev P := StateT PS (Except PErr)
 def bs (s : String) : BStr := s.toList.map fun c => UInt8.ofNat c.toNat
 
 def failf (pos : Pos) (reason : String) : P α := throw (.parse pos reason)
+/-- a Go run-time panic (a partial operation outside its domain) -/
+def panicAt (site : String) : P α := throw (.panic site)
 
 def liftSc (f : Sc → Except ScanErr (α × Sc)) : P α := do
   let st ← get
   match f st.sc with
   | .ok (a, sc') => set { st with sc := sc' }; pure a
-  | .error e => throw (.parse e.pos e.msg)
+  | .error e => if e.fuel then throw .fuel else throw (.parse e.pos e.msg)
 
 def useWhitespace (ws : Nat) : P Unit := modify fun st => { st with sc := { st.sc with ws := ws } }
 
@@ -376,7 +378,7 @@ def parseSignal (fuel : Nat) : P SignalDef := do
     let tok ← nextToken
     if tok.typ != tokIdent then failf tok.pos "expected ident"
     if tok.txt == bs "M" then isMux := true
-    else if tok.txt.isEmpty then throw (.panic "tok.txt[0]: index out of range")   -- Go: tok.txt[0]
+    else if tok.txt.isEmpty then panicAt "tok.txt[0]: index out of range"   -- Go: tok.txt[0]
     else if tok.txt.head? == some 109 && tok.txt.length > 1 then
       isMuxed := true
       match atoi (tok.txt.drop 1) with
